@@ -5,6 +5,7 @@ import (
 	"sync"
 	"time"
 
+	"github.com/internetarchive/Zeno/internal/pkg/config"
 	"github.com/internetarchive/Zeno/verifsim/sim/statsx"
 )
 
@@ -14,6 +15,14 @@ func init() { compSims["stats"] = simStats }
 func simStats(cs *compState) {
 	k := cs.k
 	statsx.XReinit()
+	if config.Get() == nil {
+		config.InitConfig()
+	}
+	// the Prometheus exporter is a configuration of the same counters: on in a third of the iterations
+	config.Get().Prometheus = cs.Chance(1, 3)
+	config.Get().PrometheusPrefix = "zeno_"
+	cs.sample["prometheus"] = config.Get().Prometheus
+	defer func() { config.Get().Prometheus = false }()
 	if err := statsx.Init(); err != nil {
 		k.Violate("C17", "init", "stats-init-failed", err.Error())
 		return
@@ -55,7 +64,7 @@ func simStats(cs *compState) {
 					}
 					live[g]++
 				case 4, 5:
-					code := []string{"200", "404", "500", "301"}[cs.Draw(4)]
+					code := []string{"200", "404", "500", "301", "999", "600", "103"}[cs.Draw(7)] // whatever three digits a server sends
 					statsx.HTTPReturnCodesIncr(code)
 					mm.Lock()
 					codes[code]++
